@@ -35,6 +35,7 @@ package main
 // tree there are no new functions and nothing is rewritten.
 
 import (
+	"go/constant"
 	"encoding/json"
 	"fmt"
 	"go/ast"
@@ -129,10 +130,119 @@ func writeBaseline(p *Prog, verif string) {
 			}
 		}
 	}
+	closures := map[string][]string{}
+	for _, fi := range p.flist {
+		if fi.Decl.Body == nil {
+			continue
+		}
+		for _, cv := range closureVars(fi.Pkg.TypesInfo, fi.Decl.Body) {
+			closures[fi.Name] = append(closures[fi.Name], cv.obj.Name())
+		}
+		sort.Strings(closures[fi.Name])
+	}
+	clb, _ := json.MarshalIndent(closures, "", " ")
+	os.WriteFile(filepath.Join(verif, "baseline_closures.json"), append(clb, '\n'), 0o644)
 	fb, _ := json.MarshalIndent(fields, "", " ")
 	os.WriteFile(filepath.Join(verif, "baseline_fields.json"), append(fb, '\n'), 0o644)
 	cb, _ := json.MarshalIndent(callers, "", " ")
 	os.WriteFile(filepath.Join(verif, "baseline_callers.json"), append(cb, '\n'), 0o644)
+}
+
+type closureVar struct {
+	obj  types.Object
+	lit  *ast.FuncLit
+	stmt ast.Stmt
+}
+
+// closureVars lists the local variables of body that are defined exactly once, by a function literal.
+func closureVars(info *types.Info, body ast.Node) []closureVar {
+	var out []closureVar
+	ast.Inspect(body, func(n ast.Node) bool {
+		switch y := n.(type) {
+		case *ast.AssignStmt:
+			if y.Tok == token.DEFINE && len(y.Lhs) == 1 && len(y.Rhs) == 1 {
+				if lit, ok := ast.Unparen(y.Rhs[0]).(*ast.FuncLit); ok {
+					if id, ok := y.Lhs[0].(*ast.Ident); ok {
+						if o := info.Defs[id]; o != nil {
+							out = append(out, closureVar{o, lit, y})
+						}
+					}
+				}
+			}
+		case *ast.DeclStmt:
+			if gd, ok := y.Decl.(*ast.GenDecl); ok && len(gd.Specs) == 1 {
+				if vs, ok := gd.Specs[0].(*ast.ValueSpec); ok && len(vs.Names) == 1 && len(vs.Values) == 1 {
+					if lit, ok := ast.Unparen(vs.Values[0]).(*ast.FuncLit); ok {
+						if o := info.Defs[vs.Names[0]]; o != nil {
+							out = append(out, closureVar{o, lit, y})
+						}
+					}
+				}
+			}
+		}
+		return true
+	})
+	return out
+}
+
+// newClosures: closure variables of fi that did not exist in the baseline, are never reassigned,
+// are only ever CALLED (not passed around) and do not call themselves.
+func newClosures(info *types.Info, fi *FuncInfo, base map[string][]string, pk *packages.Package) map[types.Object]*FuncInfo {
+	known := map[string]bool{}
+	for _, n := range base[fi.Name] {
+		known[n] = true
+	}
+	out := map[types.Object]*FuncInfo{}
+	for _, cv := range closureVars(info, fi.Decl.Body) {
+		if known[cv.obj.Name()] {
+			continue
+		}
+		callFun := map[*ast.Ident]bool{}
+		ast.Inspect(fi.Decl.Body, func(n ast.Node) bool {
+			if c, ok := n.(*ast.CallExpr); ok {
+				if id, ok := ast.Unparen(c.Fun).(*ast.Ident); ok {
+					callFun[id] = true
+				}
+			}
+			return true
+		})
+		ok := true
+		ast.Inspect(fi.Decl.Body, func(n ast.Node) bool {
+			if id, isId := n.(*ast.Ident); isId && info.Uses[id] == cv.obj && !callFun[id] {
+				ok = false // used as a value or assigned
+			}
+			return true
+		})
+		ast.Inspect(cv.lit.Body, func(n ast.Node) bool {
+			if id, isId := n.(*ast.Ident); isId && info.Uses[id] == cv.obj {
+				ok = false // recursive
+			}
+			return true
+		})
+		sig, isSig := info.TypeOf(cv.lit).(*types.Signature)
+		if !ok || !isSig {
+			continue
+		}
+		syn := types.NewFunc(cv.lit.Pos(), pk.Types, cv.obj.Name(), sig)
+		out[cv.obj] = &FuncInfo{Pkg: pk, Obj: syn, Name: fi.Name + "$" + cv.obj.Name(),
+			Decl: &ast.FuncDecl{Name: &ast.Ident{NamePos: cv.lit.Pos(), Name: cv.obj.Name()}, Type: cv.lit.Type, Body: cv.lit.Body}}
+	}
+	return out
+}
+
+func loadBaselineClosures() map[string][]string {
+	if baselinePath == "" {
+		return nil
+	}
+	b, err := os.ReadFile(filepath.Join(filepath.Dir(baselinePath), "baseline_closures.json"))
+	if err != nil {
+		return nil
+	}
+	m := map[string][]string{}
+	if json.Unmarshal(b, &m) != nil {
+		return nil
+	}
+	return m
 }
 
 // fieldCanon maps a struct field that was renamed since the baseline to the
@@ -440,9 +550,26 @@ type inliner struct {
 	pk      *packages.Package
 	info    *types.Info
 	helpers map[*types.Func]*FuncInfo
+	closures map[types.Object]*FuncInfo // new local closure variables of the function being rewritten
 	seq     *int
 	changed bool
 	alias   map[types.Object]types.Object // caller variable defined from a helper result that is one local of the helper
+	brTrue  string                        // modeBranch: labels for `return true` / `return false`
+	brFalse string
+	thread  *errThread // modeAssign followed by `if err != nil {..}`: returns jump straight to the right side of that test
+}
+
+// errThread: the caller tests the helper's error result right after the call.
+// A return of the helper whose error value is known to be nil (or non-nil) is
+// connected directly to the matching side of the caller's test, so the facts
+// of the helper's path are not lost in a merged `err` variable.
+type errThread struct {
+	errIdx          int
+	lErr, lOk, lChk string
+	usedChk         bool
+	usedErr         bool
+	nilness         map[token.Pos]string // position of a return in the helper -> "nil" / "nonnil" / ""
+	errBody         []ast.Stmt           // the caller's `if err != nil { .. }` body: duplicated at each failing return (when small)
 }
 
 func (x *inliner) helperOfCall(c *ast.CallExpr) *FuncInfo {
@@ -451,6 +578,11 @@ func (x *inliner) helperOfCall(c *ast.CallExpr) *FuncInfo {
 	}
 	f := callee(x.info, c)
 	if f == nil {
+		if id, ok := ast.Unparen(c.Fun).(*ast.Ident); ok && x.closures != nil {
+			if h := x.closures[x.info.Uses[id]]; h != nil {
+				return h
+			}
+		}
 		return nil
 	}
 	return x.helpers[f]
@@ -522,6 +654,7 @@ const (
 	modeStmt = iota
 	modeAssign
 	modeReturn
+	modeBranch // the call is an if condition: returns become jumps to the then/else labels
 )
 
 // expand returns the statements that replace a call to helper h, or nil when
@@ -657,6 +790,8 @@ func (x *inliner) expand(call *ast.CallExpr, h *FuncInfo, mode int, lhs []ast.Ex
 	// `x := helper()` where every return of the helper yields the same local
 	// variable at that position: x IS that variable (no copy is introduced)
 	aliasPos := map[int]types.Object{}
+	aliasZero := map[int]bool{}
+	aliasDead := map[int]bool{}
 	if mode == modeAssign && tok == token.DEFINE {
 		first := true
 		ast.Inspect(nb, func(n ast.Node) bool {
@@ -668,6 +803,7 @@ func (x *inliner) expand(call *ast.CallExpr, h *FuncInfo, mode int, lhs []ast.Ex
 				return true
 			}
 			cur := map[int]types.Object{}
+			zero := map[int]bool{} // nil / zero constant at that position (failure paths): compatible with any variable
 			if len(ret.Results) == len(lhs) {
 				for i, e := range ret.Results {
 					if id, ok := ast.Unparen(e).(*ast.Ident); ok {
@@ -675,17 +811,33 @@ func (x *inliner) expand(call *ast.CallExpr, h *FuncInfo, mode int, lhs []ast.Ex
 							cur[i] = v
 						}
 					}
+					if isNilIdent(x.info, e) {
+						zero[i] = true
+					}
 				}
 			}
 			if first {
 				aliasPos = cur
+				for i := range zero {
+					aliasZero[i] = true
+				}
 				first = false
 			} else {
-				for i, o := range aliasPos {
-					if cur[i] != o {
+				for i := range lhs {
+					switch {
+					case zero[i]:
+						// keeps whatever was established
+					case aliasZero[i] && aliasPos[i] == nil && cur[i] != nil:
+						aliasPos[i] = cur[i]
+						delete(aliasZero, i)
+					case cur[i] != aliasPos[i]:
 						delete(aliasPos, i)
+						aliasDead[i] = true
 					}
 				}
+			}
+			for i := range aliasDead {
+				delete(aliasPos, i)
 			}
 			return true
 		})
@@ -735,6 +887,23 @@ func (x *inliner) expand(call *ast.CallExpr, h *FuncInfo, mode int, lhs []ast.Ex
 				for _, rv := range resultVars {
 					vals = append(vals, x.newIdent(rv.Name(), ret.Pos(), rv, false))
 				}
+			}
+			if mode == modeBranch && len(vals) == 1 {
+				res = append(res, replay(ret.Pos())...)
+				jump := func(l string) ast.Stmt {
+					return &ast.BranchStmt{TokPos: ret.Pos(), Tok: token.GOTO, Label: &ast.Ident{NamePos: ret.Pos(), Name: l}}
+				}
+				if tv, ok := x.info.Types[vals[0]]; ok && tv.Value != nil && tv.Value.Kind() == constant.Bool {
+					if constant.BoolVal(tv.Value) {
+						res = append(res, jump(x.brTrue))
+					} else {
+						res = append(res, jump(x.brFalse))
+					}
+				} else {
+					res = append(res, &ast.IfStmt{If: ret.Pos(), Cond: vals[0], Body: &ast.BlockStmt{Lbrace: ret.Pos(), List: []ast.Stmt{jump(x.brTrue)}, Rbrace: ret.End()}})
+					res = append(res, jump(x.brFalse))
+				}
+				continue
 			}
 			switch {
 			case mode == modeAssign && len(lhs) > 0 && len(vals) == len(lhs):
@@ -793,6 +962,30 @@ func (x *inliner) expand(call *ast.CallExpr, h *FuncInfo, mode int, lhs []ast.Ex
 				}
 			}
 			res = append(res, replay(ret.Pos())...)
+			if mode == modeAssign && x.thread != nil {
+				target := x.thread.lChk
+				switch x.thread.nilness[ret.Pos()] {
+				case "nil":
+					target = x.thread.lOk
+				case "nonnil":
+					target = x.thread.lErr
+					if len(x.thread.errBody) <= 6 {
+						// tail duplication: the caller's error branch is copied to this failing return, so the
+						// facts of this path (which call failed, what was rolled back) reach its exits
+						plain := &astCopier{info: x.info}
+						for _, es := range x.thread.errBody {
+							res = append(res, plain.copyStmt(es))
+						}
+						target = x.thread.lOk
+					} else {
+						x.thread.usedErr = true
+					}
+				default:
+					x.thread.usedChk = true
+				}
+				res = append(res, &ast.BranchStmt{TokPos: ret.Pos(), Tok: token.GOTO, Label: &ast.Ident{NamePos: ret.Pos(), Name: target}})
+				continue
+			}
 			if s != lastTop {
 				usedLabel = true
 				res = append(res, &ast.BranchStmt{TokPos: ret.Pos(), Tok: token.GOTO, Label: &ast.Ident{NamePos: ret.Pos(), Name: label}})
@@ -802,6 +995,10 @@ func (x *inliner) expand(call *ast.CallExpr, h *FuncInfo, mode int, lhs []ast.Ex
 	}
 	mapStmtLists(nb, false, rewriteReturns)
 	out = append(out, nb.List...)
+	if mode == modeBranch {
+		x.changed = true
+		return out
+	}
 	if _, endsInReturn := lastTop.(*ast.ReturnStmt); !endsInReturn {
 		out = append(out, replay(endPos+1)...)
 	}
@@ -865,6 +1062,96 @@ func (x *inliner) exprOf(call *ast.CallExpr, h *FuncInfo) ast.Expr {
 	}
 	x.changed = true
 	return pe
+}
+
+// errNilness classifies the error value of every return of helper h (see errThread).
+func (x *inliner) errNilness(h *FuncInfo, errIdx int) map[token.Pos]string {
+	out := map[token.Pos]string{}
+	g := buildCFG(x.info, h.Decl.Body)
+	ast.Inspect(h.Decl.Body, func(n ast.Node) bool {
+		if _, ok := n.(*ast.FuncLit); ok {
+			return false
+		}
+		ret, ok := n.(*ast.ReturnStmt)
+		if !ok || errIdx >= len(ret.Results) {
+			return true
+		}
+		v := ast.Unparen(ret.Results[errIdx])
+		switch {
+		case isNilIdent(x.info, v):
+			out[ret.Pos()] = "nil"
+		default:
+			if c, ok := v.(*ast.CallExpr); ok {
+				if f := callee(x.info, c); f != nil && f.Pkg() != nil && (f.Pkg().Path() == "fmt" || f.Pkg().Path() == "errors") {
+					out[ret.Pos()] = "nonnil"
+				}
+			}
+			if id, ok := v.(*ast.Ident); ok {
+				o := x.info.ObjectOf(id)
+				for _, fc := range g.GuardsOf(ret) {
+					e, isEq, isNil := nilTest(x.info, fc.Expr)
+					if fc.Tag != nil || !isNil || objOf(x.info, e) != o || o == nil {
+						continue
+					}
+					if isEq == fc.Truth {
+						out[ret.Pos()] = "nil"
+					} else {
+						out[ret.Pos()] = "nonnil"
+					}
+				}
+				// `err = fmt.Errorf(..)` right before `return err`
+				if out[ret.Pos()] == "" {
+					if d := lastDefBefore(x.info, h.Decl.Body, o, ret); d != nil {
+						if c, ok := ast.Unparen(d).(*ast.CallExpr); ok {
+							if f := callee(x.info, c); f != nil && f.Pkg() != nil && (f.Pkg().Path() == "fmt" || f.Pkg().Path() == "errors") {
+								out[ret.Pos()] = "nonnil"
+							}
+						}
+					}
+				}
+			}
+		}
+		return true
+	})
+	return out
+}
+
+// lastDefBefore: the value assigned to o by the statement immediately preceding `at` in its block, if any.
+func lastDefBefore(info *types.Info, body ast.Node, o types.Object, at ast.Stmt) ast.Expr {
+	var res ast.Expr
+	ast.Inspect(body, func(n ast.Node) bool {
+		var list []ast.Stmt
+		switch y := n.(type) {
+		case *ast.BlockStmt:
+			list = y.List
+		case *ast.CaseClause:
+			list = y.Body
+		case *ast.CommClause:
+			list = y.Body
+		}
+		for i, st := range list {
+			if st == at && i > 0 {
+				if as, ok := list[i-1].(*ast.AssignStmt); ok && len(as.Lhs) == len(as.Rhs) {
+					for k, l := range as.Lhs {
+						if objOf(info, l) == o {
+							res = as.Rhs[k]
+						}
+					}
+				}
+			}
+		}
+		return true
+	})
+	return res
+}
+
+// exprOf2ok reports whether the helper is a one-expression function (handled by exprOf).
+func (x *inliner) exprOf2ok(call *ast.CallExpr, h *FuncInfo) bool {
+	if len(h.Decl.Body.List) != 1 {
+		return false
+	}
+	_, ok := h.Decl.Body.List[0].(*ast.ReturnStmt)
+	return ok
 }
 
 // funcLitOf builds a function literal with the helper's body (for references
@@ -1066,9 +1353,89 @@ func (x *inliner) valueRefs(root ast.Node) {
 }
 
 // rewriteList expands helper calls in one statement list.
-func (x *inliner) rewriteList(list []ast.Stmt) []ast.Stmt {
+func (x *inliner) rewriteList(list0 []ast.Stmt) []ast.Stmt {
+	// `if v, err := helper(); err != nil {` is the two statements `v, err := helper()` and `if err != nil {`
+	var list []ast.Stmt
+	for _, s := range list0 {
+		if is, ok := s.(*ast.IfStmt); ok && is.Init != nil {
+			if as, ok := is.Init.(*ast.AssignStmt); ok && len(as.Rhs) == 1 {
+				if c, ok := ast.Unparen(as.Rhs[0]).(*ast.CallExpr); ok && x.helperOfCall(c) != nil {
+					list = append(list, as)
+					is.Init = nil
+				}
+			}
+		}
+		list = append(list, s)
+	}
 	var out []ast.Stmt
-	for _, s := range list {
+	skip := false
+	for i, s := range list {
+		if skip {
+			skip = false
+			continue
+		}
+		// err-threading: `.. err := helper(..)` immediately followed by `if err != nil { .. }`
+		if as, ok := s.(*ast.AssignStmt); ok && len(as.Rhs) == 1 && i+1 < len(list) {
+			if c, ok := ast.Unparen(as.Rhs[0]).(*ast.CallExpr); ok {
+				if h := x.helperOfCall(c); h != nil {
+					if is, ok := list[i+1].(*ast.IfStmt); ok && is.Init == nil {
+						if e, isEq, isNil := nilTest(x.info, is.Cond); isNil && !isEq {
+							errIdx := -1
+							for k, l := range as.Lhs {
+								if o := objOf(x.info, l); o != nil && o == objOf(x.info, e) && isErrorType(o.Type()) {
+									errIdx = k
+								}
+							}
+							if errIdx >= 0 && h.Obj.Type().(*types.Signature).Results().Len() == len(as.Lhs) {
+								*x.seq++
+								n := *x.seq
+								th := &errThread{errIdx: errIdx, lErr: fmt.Sprintf("inl_err_%d", n), lOk: fmt.Sprintf("inl_ok_%d", n), lChk: fmt.Sprintf("inl_chk_%d", n)}
+								th.nilness = x.errNilness(h, errIdx)
+								th.errBody = is.Body.List
+								x.thread = th
+								pre := x.hoistArgs(c)
+								st := x.expand(c, h, modeAssign, as.Lhs, as.Tok)
+								x.thread = nil
+								if st != nil {
+									pos := is.Pos()
+									jump := func(l string) ast.Stmt {
+										return &ast.BranchStmt{TokPos: pos, Tok: token.GOTO, Label: &ast.Ident{NamePos: pos, Name: l}}
+									}
+									lab := func(l string, st ast.Stmt) ast.Stmt {
+										return &ast.LabeledStmt{Label: &ast.Ident{NamePos: pos, Name: l}, Colon: pos, Stmt: st}
+									}
+									out = append(out, pre...)
+									out = append(out, st...)
+									if th.usedChk {
+										out = append(out, lab(th.lChk, &ast.IfStmt{If: pos, Cond: is.Cond, Body: &ast.BlockStmt{Lbrace: pos, List: []ast.Stmt{jump(th.lErr)}, Rbrace: pos}}))
+										out = append(out, jump(th.lOk))
+									}
+									if th.usedChk || th.usedErr {
+										errList := append(append([]ast.Stmt{}, is.Body.List...), jump(th.lOk))
+										out = append(out, lab(th.lErr, &ast.BlockStmt{Lbrace: pos, List: errList, Rbrace: is.Body.End()}))
+									}
+									var okList []ast.Stmt
+									switch el := is.Else.(type) {
+									case *ast.BlockStmt:
+										okList = append(okList, el.List...)
+									case nil:
+									default:
+										okList = append(okList, el)
+									}
+									if len(okList) > 0 {
+										out = append(out, lab(th.lOk, &ast.BlockStmt{Lbrace: pos, List: okList, Rbrace: is.End()}))
+									} else {
+										out = append(out, lab(th.lOk, &ast.EmptyStmt{Semicolon: pos, Implicit: true}))
+									}
+									skip = true
+									continue
+								}
+							}
+						}
+					}
+				}
+			}
+		}
 		switch y := s.(type) {
 		case *ast.ExprStmt:
 			if c, ok := ast.Unparen(y.X).(*ast.CallExpr); ok {
@@ -1118,6 +1485,68 @@ func (x *inliner) rewriteList(list []ast.Stmt) []ast.Stmt {
 				if init := x.rewriteList([]ast.Stmt{y.Init}); len(init) != 1 || init[0] != y.Init {
 					y.Init = nil
 					out = append(out, init...)
+				}
+			}
+			if y.Init == nil && y.Else == nil {
+				// `if a && helper() { B }` is `if a { if helper() { B } }`
+				if be, ok := ast.Unparen(y.Cond).(*ast.BinaryExpr); ok && be.Op == token.LAND {
+					hasHelper := false
+					ast.Inspect(be, func(n ast.Node) bool {
+						if c, ok := n.(*ast.CallExpr); ok && x.helperOfCall(c) != nil {
+							hasHelper = true
+						}
+						return true
+					})
+					if hasHelper {
+						inner := &ast.IfStmt{If: y.If, Cond: be.Y, Body: y.Body}
+						y.Cond = be.X
+						y.Body = &ast.BlockStmt{Lbrace: y.Body.Lbrace, List: x.rewriteList([]ast.Stmt{inner}), Rbrace: y.Body.Rbrace}
+						x.changed = true
+					}
+				}
+			}
+			if y.Init == nil {
+				cond := ast.Unparen(y.Cond)
+				neg := false
+				if u, ok := cond.(*ast.UnaryExpr); ok && u.Op == token.NOT {
+					neg = true
+					cond = ast.Unparen(u.X)
+				}
+				if c, ok := cond.(*ast.CallExpr); ok {
+					if h := x.helperOfCall(c); h != nil && !x.exprOf2ok(c, h) {
+						if b, isB := h.Obj.Type().(*types.Signature).Results().At(0).Type().Underlying().(*types.Basic); isB && b.Kind() == types.Bool && h.Obj.Type().(*types.Signature).Results().Len() == 1 {
+							*x.seq++
+							n := *x.seq
+							lt, lf, le := fmt.Sprintf("inl_then_%d", n), fmt.Sprintf("inl_else_%d", n), fmt.Sprintf("inl_end_%d", n)
+							x.brTrue, x.brFalse = lt, lf
+							if neg {
+								x.brTrue, x.brFalse = lf, lt
+							}
+							pre := x.hoistArgs(c)
+							if st := x.expand(c, h, modeBranch, nil, token.ILLEGAL); st != nil {
+								pos := y.Pos()
+								jumpEnd := func() ast.Stmt {
+									return &ast.BranchStmt{TokPos: pos, Tok: token.GOTO, Label: &ast.Ident{NamePos: pos, Name: le}}
+								}
+								out = append(out, pre...)
+								out = append(out, st...)
+								thenList := append(append([]ast.Stmt{}, y.Body.List...), jumpEnd())
+								out = append(out, &ast.LabeledStmt{Label: &ast.Ident{NamePos: pos, Name: lt}, Colon: pos, Stmt: &ast.BlockStmt{Lbrace: pos, List: thenList, Rbrace: y.Body.End()}})
+								var elseList []ast.Stmt
+								switch e := y.Else.(type) {
+								case *ast.BlockStmt:
+									elseList = append(elseList, e.List...)
+								case nil:
+								default:
+									elseList = append(elseList, e)
+								}
+								elseList = append(elseList, jumpEnd())
+								out = append(out, &ast.LabeledStmt{Label: &ast.Ident{NamePos: pos, Name: lf}, Colon: pos, Stmt: &ast.BlockStmt{Lbrace: pos, List: elseList, Rbrace: y.End()}})
+								out = append(out, &ast.LabeledStmt{Label: &ast.Ident{NamePos: pos, Name: le}, Colon: pos, Stmt: &ast.EmptyStmt{Semicolon: pos, Implicit: true}})
+								continue
+							}
+						}
+					}
 				}
 			}
 		case *ast.SwitchStmt:
@@ -1172,6 +1601,88 @@ func (x *inliner) hoistArgs(c *ast.CallExpr) []ast.Stmt {
 	return pre
 }
 
+// expandNewClosures: a block that was turned into a local closure (called, never passed around) is
+// put back at its call sites, like a new helper function.
+func (p *Prog) expandNewClosures() {
+	base := loadBaselineClosures()
+	if base == nil {
+		return
+	}
+	seq := 100000
+	for _, fi := range p.flist {
+		if fi.Decl.Body == nil {
+			continue
+		}
+		info := fi.Pkg.TypesInfo
+		cl := newClosures(info, fi, base, fi.Pkg)
+		if len(cl) == 0 {
+			continue
+		}
+		x := &inliner{pk: fi.Pkg, info: info, helpers: map[*types.Func]*FuncInfo{}, closures: cl, seq: &seq}
+		cp := &astCopier{info: info}
+		nb := cp.copyBlock(fi.Decl.Body)
+		for round := 0; round < 3; round++ {
+			x.changed = false
+			mapStmtLists(nb, true, x.rewriteList)
+			if !x.changed {
+				break
+			}
+		}
+		// closures whose every call was expanded lose their definition
+		still := map[types.Object]bool{}
+		ast.Inspect(nb, func(n ast.Node) bool {
+			if id, ok := n.(*ast.Ident); ok {
+				if _, isCl := cl[info.Uses[id]]; isCl {
+					still[info.Uses[id]] = true
+				}
+			}
+			return true
+		})
+		expanded := false
+		mapStmtLists(nb, true, func(list []ast.Stmt) []ast.Stmt {
+			var out []ast.Stmt
+			for _, st := range list {
+				drop := false
+				for _, cv := range closureVars(info, &ast.BlockStmt{List: []ast.Stmt{st}}) {
+					if cv.stmt == st && cl[cv.obj] != nil && !still[cv.obj] {
+						drop = true
+					}
+				}
+				if drop {
+					expanded = true
+					continue
+				}
+				out = append(out, st)
+			}
+			return out
+		})
+		if expanded {
+			if len(x.alias) > 0 {
+				ast.Inspect(nb, func(n ast.Node) bool {
+					if id, ok := n.(*ast.Ident); ok {
+						if o, ok := x.alias[info.Uses[id]]; ok && info.Uses[id] != nil {
+							info.Uses[id] = o
+							id.Name = o.Name()
+						}
+						if o, ok := x.alias[info.Defs[id]]; ok && info.Defs[id] != nil {
+							info.Defs[id] = o
+							id.Name = o.Name()
+						}
+					}
+					return true
+				})
+			}
+			nd := *fi.Decl
+			nd.Body = nb
+			if fi.OrigDecl == nil {
+				fi.OrigDecl = fi.Decl
+			}
+			fi.Decl = &nd
+			normaliseLog = append(normaliseLog, fmt.Sprintf("expanded new local closure(s) in %s", fi.Name))
+		}
+	}
+}
+
 // normalise looks through new helpers (see the comment at the top).
 func (p *Prog) normalise() {
 	base := loadBaseline()
@@ -1190,6 +1701,7 @@ func (p *Prog) normalise() {
 			byPkgNew[fi.Pkg] = append(byPkgNew[fi.Pkg], fi)
 		}
 	}
+	p.expandNewClosures()
 	if len(byPkgNew) == 0 {
 		return
 	}
